@@ -22,7 +22,7 @@ type modelHelper struct {
 var helper *modelHelper
 
 func driverPath() string {
-	if p := os.Getenv("VERIF_DRIVER"); p != "" {
+	if p := os.Getenv("VERIF_DRIVER"); p != "" { // set by bin/check: its private copy of the driver
 		return p
 	}
 	return "/verif/lean/.lake/build/bin/driver"
